@@ -38,7 +38,9 @@ package fox
 
 //@ -- ---------------------------------------------------------------- C12: CloneWith / Close
 
-//@ func (*cTx).CloneWith props C12 partial
+//@ func (*cTx).CloneWith props C12
+//@   -- assumed: the tree's pool only ever holds contexts (it is filled by allocateContext and by Put of contexts)
+//@   assume-at after (*Pool).Get#1 : pool-type: dyntypeIs(call_result, *cTx) && unbox(call_result, *cTx) != nil
 //@   requires c != nil && c.tree != nil && c.params != nil && c.tsrParams != nil
 //@   modifies cTx.req, cTx.w, cTx.route, cTx.scope, cTx.cachedQuery, cTx.tsr, C[Params], E[Param], released
 //@   ensures live: !released[result]
@@ -48,7 +50,7 @@ package fox
 //@   ensures fresh-query: unbox(result, *cTx).cachedQuery == nil
 
 //@ -- copies *src into *dst, growing dst when needed; src is only read
-//@ func copyWithResize[github.com/tigerwill90/fox.Params github.com/tigerwill90/fox.Param] props C12,C08 partial
+//@ func copyWithResize[github.com/tigerwill90/fox.Params github.com/tigerwill90/fox.Param] props C12,C08
 //@   requires dst != nil && src != nil && dst != src
 //@   modifies *dst, E[Param]
 //@   ensures len(*dst) == len(*src) && *src == old(*src)
